@@ -136,6 +136,16 @@ def _gen_cases(rng, tier):
 		for first in (b'GET / HTTP/1.1\r\nHost: h\r\nConnection: close\r\n\r\n', b'POST / HTTP/1.1\r\nHost: h\r\nconnection: Close\r\nContent-Length: 2\r\n\r\nab', b'GET / HTTP/1.0\r\n\r\n'):
 			s = first + follow
 			cases.append({'k': 'frag', 'kind': 'server', 's': s.hex(), 'cuts': [[], list(range(1, len(s)))] + streams.single_cuts(s, None if tier == 'thorough' else 25)})
+	# boundary arithmetic: bodies of 2^k and 2^k +- 1 octets (Content-Length and chunks of exactly 2^j octets) followed by a second message;
+	# fragments of exactly 512 / 4096 / 8192 octets, cuts at and around the block boundaries inside the body and at the message end
+	for n, L in enumerate([4095, 4096, 8192, 8193, 16384] + ([1024, 4097, 8191, 32768, 65536, 65537] if tier == 'thorough' else [])):
+		kind = ('server', 'client')[n % 2]
+		gts, sers = streams.gen_wf(rng, kind, n=2, paylen=L, chunk_sizes=[rng.choice([1024, 4096, 8192])])
+		s = b''.join(sers)
+		e0 = len(sers[0])
+		hd = sers[0].index(b'\r\n\r\n') + 4
+		cuts = [[], list(range(4096, len(s), 4096)), list(range(8192, len(s), 8192)), list(range(512, len(s), 512)), [hd + 4096], [hd + 8192], [hd + L - 1], [hd + L], [e0 - 1], [e0], [e0 + 1], [hd, hd + 4096, hd + 8192]]
+		cases.append({'k': 'frag', 'kind': kind, 's': s.hex(), 'cuts': [c for c in cuts if all(0 < x < len(s) for x in c)]})
 	if tier == 'thorough':
 		# all 2^(n-1) fragmentations of short streams over a message-skeleton alphabet
 		skel = [b'GET / HTTP/1.1\r\n', b'Host:x\r\n', b'\r\n', b'A:b\r\n', b'Content-Length:2\r\n', b'ab', b'Transfer-Encoding:chunked\r\n', b'1\r\nz\r\n', b'0\r\n\r\n', b'HTTP/1.1 200 OK\r\n', b'\r', b'\n', b' c\r\n']
